@@ -406,6 +406,26 @@ class Lib:
                 self.graph_method(ex, "Graph", g, "add_edges_from", [c], {}, st)
             ex.used_lib.add(f"{name}(ebunch) -> undirected graph on the listed edges")
             return g
+        if name == "PDAG" and not args and set(kwargs) <= {"directed_ebunch", "undirected_ebunch", "latents"}:
+            # assumed contract of PDAG.__init__: directed graph on D + U + U^-1 (undirected edges stored in both directions), the edge
+            # sets and latent names kept as attributes
+            ex.assumed.add("PDAG(directed_ebunch, undirected_ebunch, latents): DiGraph on D + U + reversed U; attributes directed_edges = set(D), "
+                           "undirected_edges = set(U), latents = set(latents) (constructor contract assumed)")
+            g = empty_graph("PDAG")
+            D = ex.as_coll(kwargs.get("directed_ebunch", Coll("list", PairAA, None, items=[])), st, PairAA)
+            U = ex.as_coll(kwargs.get("undirected_ebunch", Coll("list", PairAA, None, items=[])), st, PairAA)
+            Dm = D.mem if D.mem is not None else empty_set(PairAA)
+            Um = U.mem if U.mem is not None else empty_set(PairAA)
+            x, y = fresh("a", Atom), fresh("b", Atom)
+            g.fields["@E"] = z3.Lambda([x, y], z3.Or(Dm[PairAA.mk(x, y)], Um[PairAA.mk(x, y)], Um[PairAA.mk(y, x)]))
+            E = g.fields["@E"]
+            g.fields["@nodes"] = z3.Lambda([x], z3.Exists([y], z3.Or(E[x, y], E[y, x])))
+            g.fields["directed_edges"] = Coll("set", PairAA, Dm)
+            g.fields["undirected_edges"] = Coll("set", PairAA, Um)
+            lat = kwargs.get("latents")
+            lc = ex.as_coll(lat, st, Atom) if lat is not None else None
+            g.fields["latents"] = Coll("set", Atom, lc.mem if lc is not None and lc.mem is not None else empty_set(Atom))
+            return g
         if name == "IndependenceAssertion" and len(args) == 3:
             es = []
             for a in args:
